@@ -269,6 +269,33 @@ def rgb_fade(steps, symch):
     return body
 
 
+def rgb_fade_scalar_kinds(kind):
+    """`steps` / `duration_ms` given as a non-integral float or a bool: the call either raises and leaves the LED
+    exactly as it was, or performs a complete fade that ends exactly on the target."""
+    def body(hw):
+        A, rec = _sleep_recorder(hw)
+        rgb = A.RGBLed(3, 5, 6)
+        c0 = (10, 200, 0)
+        rgb._color, rgb._state = c0, True
+        tgt = (200, 100, 50)
+        if kind == "float_steps":
+            steps, dur = pysym.sym_float("steps", 0.25, 4.75), 100
+        elif kind == "bool_steps":
+            steps, dur = pysym.sym_bool("steps"), 100
+        else:
+            steps, dur = 2, pysym.sym_float("duration", -1.0, 500.0)
+        try:
+            rgb.fade(*tgt, duration_ms=dur, steps=steps)
+        except (ValueError, TypeError):
+            claim("failed call leaves colour", same_value(rgb._color, c0))
+            claim("failed call leaves state", same_value(rgb._state, True))
+            claim("failed call does not sleep", len(rec) == 0)
+            return
+        claim("invariant", rgb_inv(rgb))
+        claim("a call that returns normally ends exactly on the target", same_value(rgb._color, tgt))
+    return body
+
+
 def rgb_blink(hw):
     A, rec = _sleep_recorder(hw)
     rgb, c0 = mk_rgb(A)
@@ -568,6 +595,8 @@ def obligations(tier):
     for mth in ("on", "off"):
         obs.append((f"RGBLed.{mth}", rgb_on_off(mth), {}))
     fades = [(1, "r"), (2, "r")] if tier == "quick" else [(1, "r"), (2, "r"), (3, "r"), (4, "g"), (5, "b"), (1, "rgb"), (2, "rg")]
+    for kind in ("float_steps", "bool_steps", "float_duration"):
+        obs.append((f"RGBLed.fade[{kind}]", rgb_fade_scalar_kinds(kind), {"timeout_ms": 120000, "budget_s": 300}))
     for steps, symch in fades:
         obs.append((f"RGBLed.fade[steps={steps},symbolic={symch}]", rgb_fade(steps, symch),
                     {"max_paths": 4000, "timeout_ms": 60000}))
